@@ -323,6 +323,10 @@ type verifC13FOutcome struct {
 	Redeliver  bool     `json:"close_redelivered"`
 	ArbsAtBoot int      `json:"arbitrators_after_restart"`
 	SlowBlocks []string `json:"slow_blocks,omitempty"`
+	LateStop   bool     `json:"stop_after_observed_quiescence,omitempty"`
+
+	// ShutdownWrites: writes committed inside ChainArbitrator.Stop.
+	ShutdownWrites int `json:"writes_during_shutdown,omitempty"`
 }
 
 func (o *verifC13FOutcome) terminal() string {
@@ -355,7 +359,7 @@ func verifC13FQuiesce(t testing.TB, kv *verifC13FKV,
 	deadline := time.Now().Add(verifC13FWatchdog)
 	stable := 0
 	last := kv.Commits()
-	for stable < 3 {
+	for stable < 6 {
 		if stop != nil {
 			select {
 			case <-stop:
@@ -631,7 +635,7 @@ func verifC13FObserve(t testing.TB, kv *verifC13FKV,
 // stopped right after the stopAt-th committed write counted from the delivery
 // of the close, and restarted.
 func verifC13FRun(t *testing.T, dbPath string, s *verifC13FCase,
-	stopAt int) *verifC13FOutcome {
+	stopAt int, ch *channeldb.OpenChannel) *verifC13FOutcome {
 
 	inner, err := kvdb.Create(
 		kvdb.BoltBackendName, dbPath, true, kvdb.DefaultDBTimeout,
@@ -652,13 +656,6 @@ func verifC13FRun(t *testing.T, dbPath string, s *verifC13FCase,
 	if err != nil {
 		t.Fatalf("verif: channeldb: %v", err)
 	}
-	lc, _, err := lnwallet.CreateTestChannels(
-		t, channeldb.SingleFunderTweaklessBit,
-	)
-	if err != nil {
-		t.Fatalf("verif: CreateTestChannels: %v", err)
-	}
-	ch := lc.State()
 	ch.Db = setupDB.ChannelStateDB()
 	addr := &net.TCPAddr{IP: net.ParseIP("127.0.0.1"), Port: 18556}
 	if err := ch.SyncPending(addr, 90); err != nil {
@@ -706,9 +703,35 @@ func verifC13FRun(t *testing.T, dbPath string, s *verifC13FCase,
 		}
 	}
 
+	// restart: the process is gone. Let the zombie run into the frozen
+	// database, reap it, restart on what is durable.
+	restart := func() {
+		verifC13FQuiesce(t, kv, nil)
+		p.stop(t)
+		w.dropSubs()
+
+		kv.mu.Lock()
+		out.Stopped = true
+		out.StopSite = kv.stopSite
+		out.ZombieWr = kv.zombieWr
+		kv.mu.Unlock()
+		kv.arm(0)
+
+		p = verifC13FBoot(t, kv, w, height)
+		p.arb.Lock()
+		out.ArbsAtBoot = len(p.arb.activeChannels)
+		p.arb.Unlock()
+
+		// A restarted chain watcher of a channel that is still open
+		// finds the spend of the funding output again.
+		out.Redeliver = p.deliver(t, s, ch)
+		stopCh = nil
+	}
+
 	// Drive: quiescence, then one more block, for a bounded number of
 	// rounds or until the channel is fully closed. A stop ends the first
 	// process wherever it is.
+drive:
 	for round := 0; round <= verifC13FRounds; round++ {
 		verifC13FQuiesce(t, kv, stopCh)
 
@@ -749,42 +772,31 @@ func verifC13FRun(t *testing.T, dbPath string, s *verifC13FCase,
 		}
 
 		if fired() {
-			// The process is gone. Let the zombie run into the
-			// frozen database, reap it, restart on what is
-			// durable.
-			verifC13FQuiesce(t, kv, nil)
-			p.stop(t)
-			w.dropSubs()
-
-			kv.mu.Lock()
-			out.Stopped = true
-			out.StopSite = kv.stopSite
-			out.ZombieWr = kv.zombieWr
-			kv.mu.Unlock()
-			kv.arm(0)
-
-			p = verifC13FBoot(t, kv, w, height)
-			p.arb.Lock()
-			out.ArbsAtBoot = len(p.arb.activeChannels)
-			p.arb.Unlock()
-
-			// A restarted chain watcher of a channel that is
-			// still open finds the spend of the funding output
-			// again.
-			out.Redeliver = p.deliver(t, s, ch)
-			stopCh = nil
+			restart()
 			round = -1
 		}
 	}
 
-	verifC13FQuiesce(t, kv, nil)
-	p.stop(t)
+	// The outcome is read with nothing left running. A stop that falls
+	// only now (after quiescence had been observed) is a stop like any
+	// other.
+	verifC13FQuiesce(t, kv, stopCh)
+	if !fired() {
+		// Writes that only happen while the process shuts down (seen
+		// on the unchanged tree: a second NotifyChannelResolved from
+		// the channel arbitrator blocks on the resolveContracts
+		// goroutine, which is inside ResolveContract waiting for that
+		// very arbitrator to stop; ChainArbitrator.Stop releases
+		// both and the log is wiped then) are stop points too.
+		before := kv.Commits()
+		p.stop(t)
+		out.ShutdownWrites += kv.Commits() - before
+	}
 	if fired() {
-		kv.mu.Lock()
-		site := kv.stopSite
-		kv.mu.Unlock()
-		t.Fatalf("verif: stop (after %s) fell after quiescence had "+
-			"been observed twice", site)
+		out.LateStop = true
+		restart()
+
+		goto drive
 	}
 
 	kv.mu.Lock()
@@ -813,7 +825,18 @@ func TestVerifC13Final(t *testing.T) {
 		return fmt.Sprintf("%s/final-%d.db", dir, dbn)
 	}
 
-	total := vc.N(40, 1200)
+	// One channel state serves every run (it is only the template that is
+	// written to each run's database; lnd works on what it reads back).
+	lc, _, err := lnwallet.CreateTestChannels(
+		t, channeldb.SingleFunderTweaklessBit,
+	)
+	if err != nil {
+		t.Fatalf("verif: CreateTestChannels: %v", err)
+	}
+	ch := lc.State()
+	chPending, chScid := ch.IsPending, ch.ShortChannelID
+
+	total := vc.N(96, 1200)
 	for i := 0; i < total; i++ {
 		if !vc.Mine(i) {
 			continue
@@ -822,7 +845,8 @@ func TestVerifC13Final(t *testing.T) {
 		s := verifC13FGen(r)
 		vc.Case(i, s)
 
-		ref := verifC13FRun(t, nextDB(), &s, 0)
+		ch.IsPending, ch.ShortChannelID = chPending, chScid
+		ref := verifC13FRun(t, nextDB(), &s, 0, ch)
 		vc.Count("final_scenarios", 1)
 		vc.Count("final_uninterrupted_writes", int64(ref.Writes))
 		vc.Max("final_writes_per_scenario", int64(ref.Writes))
@@ -836,6 +860,14 @@ func TestVerifC13Final(t *testing.T) {
 
 			continue
 		}
+		if ref.ShutdownWrites > 0 {
+			vc.Count("final_reference_writes_only_at_shutdown", 1)
+			vc.Diag("final_writes_only_at_shutdown", fmt.Sprintf(
+				"case %d %s: uninterrupted run parked with %d "+
+					"write(s) outstanding until "+
+					"ChainArbitrator.Stop (sites %v)", i,
+				s.Kind, ref.ShutdownWrites, ref.Sites))
+		}
 		if ref.Log != "none" {
 			vc.Count("final_reference_log_left", 1)
 			vc.Diag("final_reference_log_left", fmt.Sprintf(
@@ -843,7 +875,8 @@ func TestVerifC13Final(t *testing.T) {
 		}
 
 		for k := 1; k <= ref.Writes; k++ {
-			got := verifC13FRun(t, nextDB(), &s, k)
+			ch.IsPending, ch.ShortChannelID = chPending, chScid
+			got := verifC13FRun(t, nextDB(), &s, k, ch)
 			vc.Count("stop_runs", 1)
 			vc.Count("final_stop_runs", 1)
 			if !got.Stopped {
@@ -856,6 +889,9 @@ func TestVerifC13Final(t *testing.T) {
 				vc.Count("final_slow_blocks", 1)
 				vc.Diag("final_slow_block", fmt.Sprintf(
 					"case %d %s k=%d: %s", i, s.Kind, k, sb))
+			}
+			if got.LateStop {
+				vc.Count("final_stop_after_observed_quiescence", 1)
 			}
 			if got.ZombieWr > 0 {
 				vc.Count("final_zombie_writes_refused",
